@@ -451,7 +451,12 @@ def kani_group(pkg, obs, flags, stage_dir, scratch, tier):
         o["time_s"] = r["time_s"]
         o["n_checks"] = r["n_checks"]
         o["covers"] = list(r["covers"])
-        real_fail = [c for c in r["failed"] if "unwinding assertion" not in c["desc"]]
+        unsupported = [c for c in r["failed"] if "is not currently supported by Kani" in c["desc"] or "unsupported_construct" in c["name"]]
+        real_fail = [c for c in r["failed"] if "unwinding assertion" not in c["desc"] and c not in unsupported]
+        if unsupported and not real_fail:
+            # a construct Kani cannot model was reached: a tool limit, not a verdict about the code
+            o.update({"ok": False, "undecided": True, "messages": ["unsupported construct reached: " + unsupported[0]["desc"][:200]]})
+            continue
         exp = o.get("expect_fail")
         no_verdict = r["status"] != "SUCCESSFUL" and not r["failed"] and ("CBMC timed out" in r["tail"] or "CBMC failed" in r["tail"] or "out of memory" in r["tail"].lower())
         if exp and not no_verdict:
@@ -543,7 +548,8 @@ def run_kani_file(unit, spec, stage_dir, scratch, tier, prop):
             o["time_s"] = r["time_s"]
             o["n_checks"] = r["n_checks"]
             o["covers"] = list(r["covers"])
-            real_fail = [c for c in r["failed"] if "unwinding assertion" not in c["desc"]]
+            unsupported = [c for c in r["failed"] if "is not currently supported by Kani" in c["desc"] or "unsupported_construct" in c["name"]]
+            real_fail = [c for c in r["failed"] if "unwinding assertion" not in c["desc"] and c not in unsupported]
             if r["status"] == "SUCCESSFUL" and r["n_checks"] > 0:
                 o["ok"] = True
                 o["undecided"] = False
